@@ -628,11 +628,14 @@ theorem da_hro_setting_changes_only_hro (mode : Mode) (l : List (LMod Rat)) (v :
   unset or `true` ↦ `WithoutSliderAcc`; Classic with the setting `false` ↦ `WithSliderAcc`, like
   no Classic at all.
 So `lazer(false)` and lazer Classic agree on `no_slider_head_acc` (both `true`) but are *not* the
-same score origin; Classic(`false`) ≡ no Classic. -/
+same score origin; Classic(`false`) ≡ no Classic as long as `lazer` is unset/`true` (under
+`lazer(false)` a Classic with the setting `false` still switches `using_classic_slider_acc` off,
+which the pp formula reads even for a Stable origin). -/
 theorem lazer_flag_vs_classic (l : List (LMod Rat)) (hs : LSorted l) (r : Option Rat) :
     let d (lz : Option Bool) : Diff Rat := { mods := Rep.lazer .osu l, clockRate := r, lazer := lz }
     (d (some false)).osuOrigin = .stable ∧
     (getK l .Classic = none → (d (some false)).usingClassicSliderAcc = true) ∧
+    (∀ c, getK l .Classic = some c → (d (some false)).usingClassicSliderAcc = c.nsha.getD true) ∧
     (∀ lz, lz = none ∨ lz = some true →
       (getK l .Classic = none → (d lz).usingClassicSliderAcc = false ∧ (d lz).osuOrigin = .withSliderAcc) ∧
       (∀ c, getK l .Classic = some c →
@@ -640,9 +643,12 @@ theorem lazer_flag_vs_classic (l : List (LMod Rat)) (hs : LSorted l) (r : Option
         (c.nsha.getD true = true → (d lz).osuOrigin = .withoutSliderAcc) ∧
         (c.nsha = some false → (d lz).osuOrigin = .withSliderAcc))) := by
   intro d
-  refine ⟨rfl, ?_, ?_⟩
+  refine ⟨rfl, ?_, ?_, ?_⟩
   · intro h
     show (Rep.lazer .osu l : Rep Rat).noSliderHeadAcc false = true
+    rw [nsha_eq .osu l _ hs, h]; rfl
+  · intro c h
+    show (Rep.lazer .osu l : Rep Rat).noSliderHeadAcc false = c.nsha.getD true
     rw [nsha_eq .osu l _ hs, h]; rfl
   · intro lz hlz
     have hg : (d lz).getLazer = true := by rcases hlz with rfl | rfl <;> rfl
